@@ -117,6 +117,13 @@ _add("C09",
      "Trusted: the harness' request log. 'Unchoked' is judged soundly against both views so that a request racing with an Unchoke/Choke in flight is never an alarm.",
      assumptions=SIM_ASSUMPTIONS)
 
+_add("C08",
+     "wire oracle over the client's written frames per connection in the simulation, against scripted handshake abusers on incoming and outgoing connections; kill/forget monitored in the manager log",
+     "seeded scenarios: the client fetches a small torrent from a seeder (so that it has something to leak) while 1..3 abusers connect in or are dialled; each sends a handshake of kind {valid, wrong info-hash (1 bit / random), wrong peer id (dialled), wrong protocol string (one byte changed, keeping the sniffed byte), short protocol string} placed first / after other messages / never / after a valid one / before a valid one, inside a plausible history (Bitfield, Interested, Unchoke, Have, Request for an owned piece). Per connection: the first thing the client writes is its own handshake (its torrent's info-hash, its id); nothing is written to an incoming connection before its valid handshake; no Piece on a connection without completed valid handshake; after an invalid handshake nothing is written later than 1 s (virtual) afterwards, the connection is dropped within 1 s and the peer is gone from the manager's table. Distinct non-trivial = distinct abuser scripts.",
+     "Exploration: 3e3 (quick) / 6e4 (thorough) scenarios; evidence counts invalid handshakes judged and own handshakes checked.",
+     "Trusted: validity of a handshake is decided by the harness (protocol string, info-hash, and for dialled peers the id announced by the scripted tracker).",
+     assumptions=SIM_ASSUMPTIONS)
+
 NOT_APPLICABLE = []
 
 HOOK_COMMITS = ['f4e11fff6207578681bfe159fde132435a75db6b', 'c80cd8e781736d9cf047ae63c4117d911e79b492', '36e923c803e32367e0b9567db19ed45c7e679e57', 'd4d0caac768fbc161be45a56b818f54b8f8544b7', '18ace6ea4c44e4f9b55cbb2adc1f6155c1036680']
